@@ -6,10 +6,13 @@ import hirq, anchors, cone, engine
 EXPLANATION = ("H1 panic-source cone over the MIR call graph (resolved callees, closures, trait-object fan-out) from the frame decoder "
                "and the driver's response arm: every diverging call (panic!/unimplemented!/assert), every Assert terminator (bounds, "
                "overflow) and every call to an external function that may panic (#[track_caller] or the frozen may-panic table) must be "
-               "absent, decided by a discharge rule that re-reads the code on every run (guarded arithmetic, operands bounded by construction, "
-               "the consumed prefix, capped allocations, ...) or reviewed in rules/triage/C11.tsv (one reason per line); H2 every recursive cycle in that cone must be bounded "
-               "by a depth parameter compared with a constant before the recursive call; H3 inside the TLV parser an `Incomplete` from a "
-               "streaming parser applied to a take(len)-bounded content slice must not be propagated outward with `?`; H4 a decode error "
+               "absent, decided by a discharge rule that re-reads the code on every run (guarded arithmetic - also `x += c` on a local stored only there, once per call -, operands "
+               "and indices bounded by construction against the array length of the indexed type, the consumed prefix, capped allocations, ...) or reviewed in rules/triage/C11.tsv (one reason per line); "
+               "H2 every recursive cycle in that cone must be bounded: for a function that calls itself, on its enumerated paths (loops as one generic iteration) the entry depth has been "
+               "compared with a constant, leaving on the far side, when a recursive call is made, and the call passes entry depth + 1 on every iteration however the step is spelled; "
+               "a cycle through several functions by a depth parameter compared with a constant before the recursive call; H3 on the paths of the TLV parser an `Incomplete` that stems from a "
+               "parser applied to a take(len)-bounded content slice (or the cursor walking it) is never what the function returns - converted at the call, in the callee under `depth > 0` "
+               "(decided by induction over the nesting), or both; H4 a decode error "
                "leaves the driver loop with Err (dropping all reply senders).  Not decided: memory exhaustion on huge announced lengths; "
                "panics inside external crates beyond the may-panic table.")
 TRUSTED = ['the frozen may-panic classification of external callees (listed in the evidence)', 'reviewed triage table rules/triage/C11.tsv']
@@ -58,14 +61,15 @@ def run(ctx):
     # ---- H2 recursion
     cycles = G.sccs(set(parent.keys()))
     for comp in cycles:
-        ok, why = any_depth_bounded(f, comp)
+        # a function that calls itself is decided on its enumerated paths (the depth is followed through mutable locals and the
+        # iterations of a loop); a cycle through several functions by the structural rule below
+        ok, why = depth_bounded_on_paths(f, comp[0]) if len(comp) == 1 and comp[0] in getattr(f, 'hir_all', f.hir) else any_depth_bounded(f, comp)
         ctx.add('H2.bounded-recursion', ' <-> '.join(comp), f.mir[comp[0]]['span'][0] + ':%d' % f.mir[comp[0]]['span'][1], ok, why)
     if not cycles:
         ctx.ok('H2.bounded-recursion', 'no recursive cycle in the cone', '')
 
-    # ---- H3 inner Incomplete
+    # ---- H3 inner Incomplete (path rule, see check_inner_incomplete)
     tlv = [p for p in parent if p.startswith('lber::parse::') and p in f.hir]
-    n_try = 0
     may_inc = {}
     def may_incomplete(p):
         if p not in may_inc:
@@ -81,34 +85,9 @@ def run(ctx):
                             r = True
             may_inc[p] = r
         return may_inc[p]
-    for p in tlv:
-        B = hirq.Body(f, f.hir[p])
-        bounded = bounded_binds(B)
-        for n, c in walk(B.root):
-            if n['k'] != 'Try':
-                continue
-            # the parser application whose result this `?` propagates, and the conversions applied to it on the way
-            e = n['e']
-            convs = []
-            while e['k'] == 'MethodCall' and e['name'] in ('map_err', 'or_else', 'map', 'and_then'):
-                convs.append(e)
-                e = e['recv']
-            if e['k'] != 'Call':
-                continue
-            cal = callee_of(e)
-            if cal is None or cal not in f.mir or not e['args']:
-                continue
-            n_try += 1
-            b = hirq.local_of(e['args'][0])
-            inst = '%s|%s' % (p, cal.split('::')[-1])
-            if b in bounded and may_incomplete(cal):
-                if any(converts_incomplete(cv) for cv in convs):
-                    ctx.ok('H3.inner-incomplete-propagates', inst, loc(n), 'Incomplete is converted into a hard error before `?`')
-                else:
-                    ctx.fail('H3.inner-incomplete-propagates', inst, loc(n),
-                             '`%s(<content slice bounded by take(len)>)?` propagates Incomplete: the frame is complete but the decoder keeps waiting for bytes that cannot complete it' % cal.split('::')[-1])
-            else:
-                ctx.ok('H3.inner-incomplete-propagates', inst, loc(n))
+    n_try = 0
+    for p in sorted(tlv):
+        n_try += check_inner_incomplete(ctx, f, p, may_incomplete)
     ctx.floor('H3', 'propagating parser calls examined in the TLV parser', n_try, 1)
 
     # ---- H4 decode error ends the connection
@@ -129,59 +108,233 @@ def run(ctx):
                 ctx.add('H4.eof-leaves-loop', 'None', loc(a['body']), hirq.diverges(a['body']), 'end of stream does not leave the driver loop')
 
 
-def converts_incomplete(cv):
-    """`.map_err(|e| match e { Err::Incomplete(_) => <Error/Failure>, .. })`: an unguarded arm for Incomplete
-    whose body does not build Incomplete again."""
-    if cv['name'] not in ('map_err', 'or_else') or not cv['args'] or cv['args'][0]['k'] != 'Closure':
-        return False
-    for m, _ in walk(cv['args'][0]['body']):
-        if m['k'] == 'Match':
-            for a in m['arms']:
-                if (hirq.pat_variant(a['pat']) or '').endswith('Err::Incomplete') and a.get('guard') is None:
-                    rebuilt = [x for x, _ in walk(a['body']) if x['k'] in ('Call', 'Path') and 'Err::Incomplete' in (x.get('callee') or x.get('ctor_of') or x.get('def') or '')]
-                    built = [x for x, _ in walk(a['body']) if x['k'] == 'Call' and ((x.get('callee') or '').endswith('Err::Error') or (x.get('callee') or '').endswith('Err::Failure'))]
-                    if built and not rebuilt:
-                        return True
-    return False
+NOM_ERR = ['Err::Incomplete', 'Err::Error', 'Err::Failure']
+UNSIGNED = ('usize', 'u8', 'u16', 'u32', 'u64')
 
-def bounded_binds(B):
-    """Bindings holding (a suffix of) the content slice cut out by an application of streaming `take(len)`."""
-    bounded = set()
-    def is_take_apply(e):
-        e2 = e
-        if e2['k'] == 'Try':
-            e2 = e2['e']
-        # error-side conversions leave the Ok payload (rest, content) alone
-        while e2['k'] == 'MethodCall' and e2['name'] in ('map_err', 'or_else'):
-            e2 = e2['recv']
-        return e2['k'] == 'Call' and e2['f']['k'] == 'Call' and (callee_of(e2['f']) or '').endswith('streaming::take')
-    def parser_apply_input(e):
-        e2 = e['e'] if e['k'] == 'Try' else e
-        while e2['k'] == 'MethodCall' and e2['name'] in ('map_err', 'or_else'):
-            e2 = e2['recv']
-        if e2['k'] == 'Call' and e2['args']:
-            return hirq.local_of(e2['args'][0])
+def check_inner_incomplete(ctx, f, p, may_incomplete):
+    """H3, on the enumerated paths of a parser function of lber (loops as one generic iteration, `map_err` / `or_else` / helper
+    closures evaluated by cases): an `Incomplete` that stems from a parser applied to a *bounded* slice - the content cut out by
+    `take(announced length)`, the cursor that walks it, a remainder of either - must not be what the function returns; the octets
+    are all there, so the frame would be re-parsed forever.  Per error path the returned error is traced to its origin:
+      a constructed Error / Failure, or an error the path condition says is not Incomplete (converted, wherever the conversion sits:
+      `map_err` at the call, a helper, a `match`) - fine;
+      the error of a parser applied to the function's own input or a remainder of it - a genuine request for more input when the
+      function was called on the caller's buffer;
+      the error of a parser applied to a bounded slice, handed on as it is - a violation, unless that parser is the function itself
+      called one level further down and the function, called with depth > 0, never answers Incomplete.  That claim is decided by
+      induction over the nesting: every path that may answer Incomplete either excludes depth > 0 by its condition (`if depth > 0`
+      in a callee-side conversion), or hands on the answer of a recursive call whose depth argument is entry depth + k, k >= 1
+      (induction hypothesis; that the step cannot wrap is H1's overflow obligation).
+    What is bounded is decided strictly: only the function's slice parameter and remainders of parsers applied to it count as
+    unbounded; anything the rule cannot trace is treated as bounded (fail closed).  Returns the number of error paths examined."""
+    import absx, sem
+    B = hirq.Body(f, f.hir[p])
+    outs = absx.Interp(f, B, unroll=1, result_combinators=True, generic_loops=True).run()
+    slice_params = {('param', d['name']) for b, d in B.defs.items() if d['kind'] == 'param' and not d['proj'] and hirq.strip_refs((d['pat'].get('ty') or '')) == '[u8]'}
+    ints = [('param', d['name']) for b, d in B.defs.items() if d['kind'] == 'param' and not d['proj'] and (d['pat'].get('ty') or '') in UNSIGNED]
+    D = ints[0] if len(ints) == 1 else None          # the nesting depth, by role: the one unsigned integer parameter
+    carried_ty = {b: hirq.strip_refs(d['pat'].get('ty') or '') for b, d in B.defs.items()}
+
+    def application(t):
+        """(parser term | callee, input term) of a parser application `parser(input)` / `callee(input, ..)`, else None"""
+        if t[0] == 'call' and t[1] == '<indirect>' and len(t[2]) == 2:
+            return t[2][0], t[2][1]
+        if t[0] == 'call' and t[1] != '<indirect>' and t[2]:
+            return ('fn', t[1]), t[2][0]
         return None
-    changed = True
-    while changed:
-        changed = False
-        for b, d in B.defs.items():
-            if b in bounded or d.get('src') is None:
+    def is_take(parser):
+        return parser[0] == 'call' and parser[1] in ('nom::bytes::streaming::take', 'nom::bytes::complete::take')
+    def unbounded(t, o, seen=()):
+        """t is (a suffix of) the slice the function was given: the parameter itself, the remainder `.0` of a parser applied to such
+        a slice, or the loop-carried cursor that starts as one and is one again at every back edge"""
+        t = sem.strip_site(t)
+        if t in slice_params:
+            return True
+        if t[0] == 'field' and t[2] == '0' and t[1][0] == 'variant' and t[1][2] == 'Ok' and t[1][3] == 0:
+            app = application(t[1][1])
+            return app is not None and unbounded(app[1], o, seen)
+        if t[0] == 'carried' and t not in seen:
+            ini = [e[4] for e in o.st.ev if e[0] == 'loop-carried' and sem.strip_site(e[2]) == t]
+            backs = [x.st.env.get(t[1]) for x in outs if x.kind == 'loop' and any(e[0] == 'loop-carried' and e[1] == t[1] for e in x.st.ev)]
+            return bool(ini) and all(unbounded(v, o, seen + (t,)) for v in ini) and all(v is not None and (sem.strip_site(v) == t or unbounded(v, o, seen + (t,))) for v in backs)
+        return False
+    def parser_may_incomplete(parser):
+        """a parser value that can answer Incomplete: a streaming primitive of nom, a workspace function whose MIR cone contains one
+        (or builds Incomplete itself), a combinator over such; a closure or anything unknown counts as one (fail closed)"""
+        known = absx.leaves(parser, lambda x: x[0] in ('fn', 'call', 'closure', 'unk', 'param', 'unbound'))
+        for x in known:
+            if x[0] in ('closure', 'unk', 'param', 'unbound'):
+                return True
+            c = x[1]
+            if c == p or '::streaming::' in c or (c in f.mir and may_incomplete(c)):
+                return True
+            if c not in f.mir and not c.startswith('nom::') and x[0] == 'fn':
+                return True
+        return not known
+    def payload(v):
+        """the nom::Err value an error path returns"""
+        if v[0] == 'tryerr':
+            v = v[1]
+        if v[0] == 'ctor' and v[1] == 'Err' and len(v[2]) == 1:
+            return v[2][0]
+        return ('variant', v, 'Err', 0)
+    def depth_excluded(o):
+        """the path condition cannot hold for any entry depth > 0: its atoms over the depth parameter alone (comparisons with
+        constants) are evaluated at every constant they mention and its neighbours, from 1 upwards"""
+        if D is None:
+            return False
+        atoms = [(sem.strip_site(a), t) for a, t in o.st.pc if absx.leaves(a, lambda x: x == D) and not absx.leaves(a, lambda x: x[0] in ('call', 'carried', 'field', 'variant', 'unk') or (x[0] == 'param' and x != D))]
+        consts = {x[1] for a, t in atoms for x in absx.leaves(a, lambda x: x[0] == 'lit' and isinstance(x[1], int) and not isinstance(x[1], bool))}
+        pts = sorted({v for c in consts | {1} for v in (c - 1, c, c + 1) if 1 <= v <= 2 ** 64 - 1} | {2 ** 64 - 1})
+        for v in pts:
+            try:
+                if all(bool(absx.eval_term(a, {D: v})) == t for a, t in atoms):
+                    return False
+            except absx.NotEvaluable:
+                return False
+        return True
+    def steps_down(arg):
+        """the depth argument of a recursive call is provably > 0: entry depth (or a value carried around the loop) plus k >= 1, or a positive literal"""
+        arg = sem.strip_site(arg)
+        if arg[0] == 'lit':
+            return isinstance(arg[1], int) and not isinstance(arg[1], bool) and arg[1] > 0
+        if arg[0] == 'bin' and arg[1] == 'Add' and arg[3][0] == 'lit' and isinstance(arg[3][1], int) and arg[3][1] >= 1:
+            return arg[2] == D or (arg[2][0] == 'carried' and carried_ty.get(arg[2][1]) in UNSIGNED)
+        return False
+    didx = next((d['idx'] for b, d in B.defs.items() if d['kind'] == 'param' and ('param', d['name']) == D), None)
+
+    inc = []          # (outcome, origin kind, parser / callee, input term, bounded input?)
+    n = 0
+    for o in outs:
+        if o.kind not in ('val', 'ret') or not sem.is_err_result(o.val):
+            continue
+        n += 1
+        e = sem.strip_site(payload(o.val))
+        if e[0] == 'ctor' and e[1] in ('Err::Error', 'Err::Failure'):
+            continue
+        if e[0] == 'ctor' and e[1] == 'Err::Incomplete':
+            inc.append((o, 'built', None, None, False)); continue
+        if sem.variant_truth(o.st.pc, lambda v: sem.strip_site(v) == e, 'Err::Incomplete', NOM_ERR) is False:
+            continue          # the path condition says the error is not Incomplete: converted or excluded on this path
+        app = application(e[1]) if e[0] == 'variant' and e[2] == 'Err' else None
+        if app is None:
+            inc.append((o, 'unknown', None, e, True)); continue
+        parser, inp = app
+        if parser == ('fn', p):
+            inc.append((o, 'rec', e[1], inp, not unbounded(inp, o)))
+        elif parser_may_incomplete(parser):
+            inc.append((o, 'prim', parser, inp, not unbounded(inp, o)))
+    def rec_ok(o, call):
+        return didx is not None and didx < len(call[2]) and steps_down(call[2][didx])
+    # claim: called with depth > 0 the function never answers Incomplete
+    breaks = [x for x in inc if not depth_excluded(x[0]) and not (x[1] == 'rec' and rec_ok(x[0], x[2]))]
+    def where(x):
+        if x[1] == 'prim':
+            return 'inside its content octets' if is_take(x[2]) else 'inside its identifier / length octets'
+        return 'on a path the rule cannot trace to a parser application' if x[1] == 'unknown' else 'by an Incomplete the function builds itself' if x[1] == 'built' else 'by a recursive call whose depth argument is not the entry depth plus a positive step'
+    short = p.split('::')[-1]
+    reported = set()
+    for o, kind, parser, inp, bounded in inc:
+        if not bounded:
+            continue
+        if kind == 'rec' and not breaks:
+            continue          # nested calls never answer Incomplete: handing their error on as it is hands on no Incomplete
+        if kind == 'rec':
+            why = ('`%s(<content slice bounded by take(len)>, ..)?` hands the nested call\'s error on as it is, and a nested call (depth > 0) can answer Incomplete: %s; '
+                   'the frame is complete but the decoder keeps waiting for bytes that cannot complete it'
+                   % (short, '; '.join(sorted({'a nested element cut off %s yields Incomplete' % where(x) for x in breaks}))))
+            callee = short
+        elif kind == 'prim':
+            callee = absx.fmt(parser)[:40]
+            why = '`%s(<content slice bounded by take(len)>)?` propagates Incomplete: the frame is complete but the decoder keeps waiting for bytes that cannot complete it' % callee
+            callee = callee.split('(')[0]
+        else:
+            callee = kind
+            why = 'an error that may be Incomplete is returned %s (%s): not decided that a complete frame is never answered with a request for more input' % (where((o, kind)), absx.fmt(inp if inp else o.val)[:60])
+        if (callee, why) in reported:
+            continue
+        reported.add((callee, why))
+        ctx.fail('H3.inner-incomplete-propagates', '%s|%s' % (p, callee), loc(B.root), why)
+    if not reported:
+        ctx.ok('H3.inner-incomplete-propagates', '%s|%d error paths' % (p, n), loc(B.root),
+               'no path returns an Incomplete that stems from a bounded slice' + ('; called with depth > 0 the function never answers Incomplete' if inc and not breaks and any(x[1] == 'rec' for x in inc) else ''))
+    return n
+
+def depth_atoms(pc, D):
+    """the atoms of a path condition that speak about the term D and constants only"""
+    import absx, sem
+    return [(sem.strip_site(a), t) for a, t in pc if absx.leaves(a, lambda x: x == D)
+            and not absx.leaves(a, lambda x: x[0] in ('call', 'carried', 'field', 'variant', 'unk', 'fresh', 'elem') or (x[0] == 'param' and x != D))]
+
+def bounded_above(pc, D, top=2 ** 64 - 1):
+    """The smallest constant c with: the path condition implies D <= c; None when it gives no upper bound.  Its atoms over D alone are
+    comparisons with constants, so whether they can all hold is constant between consecutive change points: they are evaluated at
+    every constant they mention and its neighbours, and at the top of the type."""
+    import absx
+    atoms = depth_atoms(pc, D)
+    consts = {x[1] for a, t in atoms for x in absx.leaves(a, lambda x: x[0] == 'lit' and isinstance(x[1], int) and not isinstance(x[1], bool))}
+    pts = sorted({v for c in consts for v in (c - 1, c, c + 1) if 0 <= v <= top} | {0, top})
+    sat = []
+    for v in pts:
+        try:
+            if all(bool(absx.eval_term(a, {D: v})) == t for a, t in atoms):
+                sat.append(v)
+        except absx.NotEvaluable:
+            return None
+    if top in sat or not atoms:
+        return None
+    return max(sat) if sat else -1
+
+def depth_bounded_on_paths(f, p):
+    """H2 for a function that calls itself, on its enumerated paths with every loop as one generic iteration (values a mutable local
+    carries around the loop are unknowns): there is one integer parameter, the depth; at every recursive call
+      (guard) the path condition *as it stands when the call is made* bounds the entry depth from above by a constant - a test made
+        after the call bounds nothing -, and
+      (step) the value passed in the depth position is the entry depth plus one - whichever way it is computed (`depth + 1` at the
+        call, a `let`, `depth += 1` on the mutable parameter before the loop over the children) - on every iteration: a value that
+        grows from one child to the next is not the nesting depth (the bound then limits the number of siblings), a value that is not
+        stepped bounds nothing."""
+    import absx, sem
+    hir = getattr(f, 'hir_all', f.hir)
+    B = hirq.Body(f, hir[p])
+    INTS = ('usize', 'u32', 'u8', 'u16', 'u64', 'i32')
+    ps = [d for b, d in B.defs.items() if d['kind'] == 'param' and not d['proj'] and (d['pat'].get('ty') or '') in INTS]
+    short = p.rsplit('::', 1)[-1]
+    if len(ps) != 1:
+        return False, 'recursion on peer-controlled nesting without a depth bound (%s has no single integer depth parameter): stack overflow on deeply nested input' % short
+    D, idx = ('param', ps[0]['name']), ps[0]['idx']
+    def mark(I, cal, args, node, st):
+        # the recursive call is left opaque (as without this summary); the event that follows it records how much of the path
+        # condition had been established when the call was made
+        if cal == p:
+            return [absx.Out('val', ('call', cal, tuple(args), node.get('id')), st.event(('call', cal, tuple(args), node)).event(('pc-mark', len(st.pc))))]
+        return None
+    outs = absx.Interp(f, B, unroll=1, result_combinators=True, generic_loops=True, summaries=[mark]).run()
+    n_calls, bound = 0, None
+    for o in outs:
+        ev = o.st.ev
+        for i, e in enumerate(ev):
+            if e[0] != 'call' or e[1] != p:
                 continue
-            src = d['src']
-            if d['proj'] == (('tup', 1),) and is_take_apply(src):
-                bounded.add(b); changed = True
-            elif d['proj'] == (('tup', 0),) and parser_apply_input(src) in bounded and not is_take_apply(src):
-                bounded.add(b); changed = True
-            elif not d['proj'] and hirq.local_of(src) in bounded:
-                bounded.add(b); changed = True
-        for b, asg in B.assigns.items():
-            if b in bounded:
-                continue
-            for a in asg:
-                if a['k'] == 'Assign' and hirq.local_of(a['r']) in bounded:
-                    bounded.add(b); changed = True
-    return bounded
+            n_calls += 1
+            k = ev[i + 1][1] if i + 1 < len(ev) and ev[i + 1][0] == 'pc-mark' else 0
+            c = bounded_above(o.st.pc[:k], D)
+            if c is None:
+                return False, 'recursion on peer-controlled nesting without a depth bound: on a path to the recursive call at %s the depth parameter has not been compared with a constant (leaving on the far side) before the call: stack overflow on deeply nested input' % loc(e[3])
+            bound = c if bound is None else max(bound, c)
+            if idx >= len(e[2]):
+                return False, 'recursive call does not pass the depth counter'
+            a = sem.strip_site(e[2][idx])
+            if a == D:
+                return False, 'recursion on peer-controlled nesting: the depth counter is passed on without being stepped at %s - the bound is never reached: stack overflow on deeply nested input' % loc(e[3])
+            if absx.leaves(a, lambda x: x[0] == 'carried'):
+                return False, ('the depth passed to a child depends on its position among its siblings (at %s the value %s is carried from one iteration of the loop over the children to the next): '
+                               'what is compared with the bound is not the nesting depth' % (loc(e[3]), absx.fmt(a)[:60]))
+            if a != ('bin', 'Add', D, ('lit', 1)):
+                return False, 'recursion on peer-controlled nesting: the value passed in the depth position at %s is %s, not the entry depth stepped by 1' % (loc(e[3]), absx.fmt(a)[:60])
+    if not n_calls:
+        return False, 'the recursive call of %s is not reached on any enumerated path (not decided)' % short
+    return True, 'every recursive call passes entry depth + 1 and is made only after the entry depth was found to be at most %d' % bound
 
 def any_depth_bounded(f, comp):
     """A recursive cycle is accepted when a depth counter travels around it: every member has one integer parameter `d`; every
